@@ -77,12 +77,12 @@ _EVAL_TRUSTED = _OPS_TRUSTED + [
 _EVAL_ASSUME = ['the graph handed to the evaluator carries its BooleanNetwork (as_network() is Some) and its unit set satisfies the regulation constraints and does not constrain state or auxiliary variables (graphs built by get_extended_symbolic_graph)']
 
 PROPS['C01'] = {
-    'units': ['ops', 'eval', 'api'],
+    'units': ['ops', 'eval', 'api', 'front', 'lex', 'tree'],
     'level_text': ('Proof that the recursive evaluator eval_node returns, for every graph, every well-formed tree over all operators and every '
                    'context, a set that agrees with the HCTL semantics `sem` (spec/sem.rs, written from the statement: self-loops on states '
                    'without successors, least/greatest fixed points, bind/jump/exists/forall) inside the graph\'s unit set; every operator '
                    'function is proved equal to its fixed-point specification for all argument sets and all numbers of iterations.'),
-    'level_note': 'Trusted: Verus/Z3, the assumed model of the BDD/graph library, extraction rules, attractor algorithm, two facts about canonical keys. Stage 1: sub-formula sharing off; entry points not yet under contract (see C04).',
+    'level_note': 'Trusted: Verus/Z3, the assumed model of the BDD/graph library, extraction rules, attractor algorithm, facts about canonical keys (axiom_key_sound, axiom_canon_*), contract of mark_duplicates, known findings D5 / D8. The plain string / tree entry points (dirty and sanitising, single and batch) are proved end to end: Ok(v) => v agrees with the semantics of the preprocessed formula inside the unit set and does not leave it; Err => the text is rejected for one of the documented reasons. Extended (wild-card) entry points are not yet under contract.',
     'explanation': ('eval_node (algorithm.rs) is verified arm by arm: each arm combines the proved postcondition of the operator (unit ops) with a proved '
                     '"arm lemma" (spec/sem_arms.rs) showing that the operator preserves the invariant ok(g, result, sem) = agreement inside unit(g) '
                     'and containment in the base unit set; recursion on the tree is proved terminating.'),
@@ -105,7 +105,7 @@ PROPS['C02'] = {
     'trusted': _EVAL_TRUSTED, 'assumptions': _EVAL_ASSUME,
 }
 PROPS['C03'] = {
-    'units': ['ops', 'eval', 'api'],
+    'units': ['ops', 'eval', 'api', 'front', 'lex', 'tree'],
     'level_text': ('Proof that every set returned by eval_node is a subset of the base graph\'s unit set (second half of the invariant `ok`), '
                    'for all graphs with constrained parameters and all formulae, and that every atomic evaluation (propositions, variables, constants) '
                    'is intersected with the unit set. Independence of closed results from the auxiliary variables is not yet a proved lemma.'),
@@ -175,9 +175,12 @@ PROPS['C07'] = {
 }
 
 PROPS['C04'] = {
-    'units': ['ops', 'eval', 'api'],
+    'units': ['ops', 'eval', 'api', 'front', 'lex', 'tree'],
     'functions': {'ops': ['substitute_hctl_var', 'create_comparator_two_vars', 'create_equalizer', 'project_out_hctl_var'], 'eval': ['eval_node'],
-                  'api': ['_model_check_multiple_trees_dirty', 'model_check_multiple_trees_dirty', '_model_check_tree_dirty', 'model_check_tree_dirty']},
+                  'api': ['_model_check_multiple_trees_dirty', 'model_check_multiple_trees_dirty', '_model_check_tree_dirty', 'model_check_tree_dirty',
+                          '_model_check_multiple_formulae_dirty', 'model_check_multiple_formulae_dirty', '_model_check_multiple_trees', 'model_check_multiple_trees',
+                          '_model_check_multiple_formulae', 'model_check_multiple_formulae', 'parse_and_validate'],
+                  'front': ['parse_and_minimize_hctl_formula'], 'lex': [], 'tree': []},
     'level_text': ('Proof of a representation invariant of the EvalContext (ctx_inv): every cached value is either a wild-card set or, for a ghost witness '
                    'tree with the same canonical key, agrees with the semantics of that tree inside the unit set it was computed on; every hit (with the '
                    'renaming of its at most one variable), every store and every counter update re-establishes it, so the result of eval_node agrees '
@@ -204,3 +207,19 @@ PROPS['C14'] = {
     'trusted': _EVAL_TRUSTED, 'assumptions': _EVAL_ASSUME,
 }
 UNIT_TIMEOUT['api'] = 600
+
+PROPS['C15'] = {
+    'units': ['api', 'eval', 'ops', 'front', 'lex', 'tree'],
+    'functions': {'api': ['sanitize_colored_vertices', '_model_check_multiple_trees', 'model_check_multiple_trees', '_model_check_tree', 'model_check_tree',
+                          '_model_check_multiple_formulae', 'model_check_multiple_formulae', '_model_check_formula', 'model_check_formula',
+                          '_model_check_multiple_trees_dirty', '_model_check_multiple_formulae_dirty', 'parse_and_validate'],
+                  'eval': ['eval_node'], 'ops': [], 'front': [], 'lex': [], 'tree': []},
+    'level_text': ('Proof that sanitize_colored_vertices returns the same set of points in the encoding without auxiliary variables and that its unwrap() cannot '
+                   'fail for the results of closed plain formulae: lemma_sem_indep (induction on the tree, 12 operator lemmas) shows that the semantics of a '
+                   'formula depends only on the auxiliary copies of its free variables, hence not at all for a closed one; the sanitising entry points are '
+                   'proved to return exactly the raw result. All contracts are stated for an arbitrary number dim_k() of spare variable sets, so the result '
+                   'is the same set of (state, colour) pairs for every k >= nesting depth.'),
+    'level_note': 'Assumed: the contract of SymbolicContext::transfer_from / as_canonical_context (succeeds iff the BDD does not depend on the auxiliary variables; a canonical BDD is modelled by its cylinder). R-mapcollect rewrites `results.iter().map(|x| sanitize(..)).collect()` into the explicit loop. Plain formulae only; known findings D5 / D8 apply (a wrongly shared result may depend on auxiliary variables).',
+    'explanation': 'spec/indep.rs; contracts/api.ctr (sanitize_colored_vertices and the non-dirty entry points).',
+    'trusted': _EVAL_TRUSTED, 'assumptions': _EVAL_ASSUME,
+}
